@@ -27,6 +27,14 @@ type xmlEncState struct {
 	events []xmlEvent
 	stack  []Str
 	bad    string
+	toks   []xmlTokRec // what was written, as a token stream (vXMLTokens)
+}
+
+type xmlTokRec struct {
+	kind  int // 0 start, 1 end
+	name  Str
+	attrs [][2]Str
+	model *Iface // atomic element: the value handed to the reflection encoder
 }
 
 type xmlDecState struct {
@@ -212,15 +220,47 @@ func (in *Interp) xmlEncode(g *Goroutine, enc Ptr, v Iface, start *Str, startAtt
 		}
 	}
 	name := Str{}
-	if start != nil {
-		name = *start
-	} else if dn, ok := xmlDefaultName(t, val); ok {
+	if dn, ok := xmlDefaultName(t, val); ok && (start == nil || xmlTagName(t) != "") {
+		// an XMLName tag overrides the name asked for by the caller
 		name = Str{s: dn}
+	} else if start != nil {
+		name = *start
 	} else {
 		return in.mkError("xml: unsupported type")
 	}
+	if stt, ok := t.Underlying().(*types.Struct); ok && in.xmlHasMarshallerField(stt) {
+		// a plain container struct (no MarshalXML of its own) some of whose children
+		// have hand-written marshallers: encoded field by field by its struct tags
+		in.stubsHit["xml container encoding by struct tags of the current tree"]++
+		sv, ok := val.(StructV)
+		if !ok {
+			in.unsupported("xml: container value of unexpected shape")
+		}
+		in.xmlStart(st, name, startAttrs)
+		st.toks = append(st.toks, xmlTokRec{kind: 0, name: name, attrs: startAttrs})
+		for i := 0; i < stt.NumFields(); i++ {
+			fname, isAttr, special := xmlFieldTag(stt, i)
+			if stt.Field(i).Name() == "XMLName" || special {
+				continue
+			}
+			if isAttr {
+				in.unsupported("xml: attribute field %s on a tag-encoded container", fname)
+			}
+			fn := Str{s: fname}
+			if e := in.xmlEncode(g, enc, Iface{t: stt.Field(i).Type(), v: sv.f[i]}, &fn, nil); !isNilValue(e) {
+				return e
+			}
+		}
+		in.xmlEnd(st, name)
+		st.toks = append(st.toks, xmlTokRec{kind: 1, name: name})
+		return Iface{}
+	}
 	in.xmlStart(st, name, startAttrs)
 	in.xmlEnd(st, name)
+	// the element as an atomic token: a pointer to a copy of the encoded value
+	mc := in.newCell(t)
+	in.store(mc, in.deepCopy(val, map[*Cell]*Cell{}, map[*MapObj]*MapObj{}))
+	st.toks = append(st.toks, xmlTokRec{kind: 0, name: name, attrs: startAttrs, model: &Iface{t: types.NewPointer(t), v: Ptr{mc}}})
 	return Iface{}
 }
 
@@ -261,9 +301,11 @@ func init() {
 				return in.mkError("xml: start tag with no name")
 			}
 			in.xmlStart(st, name, attrs)
+			st.toks = append(st.toks, xmlTokRec{kind: 0, name: name, attrs: attrs})
 		case "EndElement":
 			name := tok.v.(StructV).f[0].(StructV).f[1].(Str)
 			in.xmlEnd(st, name)
+			st.toks = append(st.toks, xmlTokRec{kind: 1, name: name})
 			if st.bad != "" {
 				return in.mkError("xml: " + st.bad)
 			}
@@ -310,6 +352,37 @@ func init() {
 			return SliceV{}
 		}
 		return SliceV{arr: arr, len: len(evs), cap: len(evs)}
+	}
+
+	// vXMLTokens: what the encoder wrote, as a token stream for vXMLStream (natively: the real text)
+	rtIntrinsics["vXMLTokens"] = func(in *Interp, c *callCtx) Value {
+		enc := c.args[0].(Ptr)
+		st := in.encState(enc.c)
+		tt := c.fn.Pkg.Type("vXMLTok").Type()
+		at := c.fn.Pkg.Type("vXMLAttr").Type()
+		if st.bad != "" || len(st.stack) != 0 {
+			in.unsupported("vXMLTokens on an unbalanced encoder output")
+		}
+		arr := in.newArray(tt, len(st.toks))
+		for i, r := range st.toks {
+			var asl Value = SliceV{}
+			if len(r.attrs) > 0 {
+				aarr := in.newArray(at, len(r.attrs))
+				for j, a := range r.attrs {
+					in.store(in.elem(aarr, j), StructV{[]Value{a[0], a[1]}})
+				}
+				asl = SliceV{arr: aarr, len: len(r.attrs), cap: len(r.attrs)}
+			}
+			var model Value = Iface{}
+			if r.model != nil {
+				model = *r.model
+			}
+			in.store(in.elem(arr, i), StructV{[]Value{in.tt.Const(64, uint64(r.kind)), r.name, asl, model, in.zero(tt.Underlying().(*types.Struct).Field(4).Type())}})
+		}
+		if len(st.toks) == 0 {
+			return SliceV{}
+		}
+		return SliceV{arr: arr, len: len(st.toks), cap: len(st.toks)}
 	}
 
 	// ---- token-level decoder
@@ -785,4 +858,32 @@ func (in *Interp) xmlDecodeDocument(g *Goroutine, dec Ptr, ds *xmlDecState, targ
 			return in.mkError("XML syntax error: unexpected EOF")
 		}
 	}
+}
+
+// xmlHasMarshallerField: some field's (element) type has a MarshalXML method.
+func (in *Interp) xmlHasMarshallerField(st *types.Struct) bool {
+	// only pure containers: no attribute / chardata fields (those are leaves for this stub)
+	for i := 0; i < st.NumFields(); i++ {
+		if _, isAttr, special := xmlFieldTag(st, i); (isAttr || special) && st.Field(i).Name() != "XMLName" {
+			return false
+		}
+	}
+	for i := 0; i < st.NumFields(); i++ {
+		t := st.Field(i).Type()
+		for k := 0; k < 3; k++ {
+			if in.findMethod(t, "MarshalXML") != nil || in.findMethod(types.NewPointer(t), "MarshalXML") != nil {
+				return true
+			}
+			switch u := t.Underlying().(type) {
+			case *types.Slice:
+				t = u.Elem()
+				continue
+			case *types.Pointer:
+				t = u.Elem()
+				continue
+			}
+			break
+		}
+	}
+	return false
 }
